@@ -42,6 +42,8 @@ type Engine struct {
 	Known          *KnownFindingsFile
 	CurProp        string
 	CurPkg         string
+	dynKeys        map[*ssa.Function]map[string]bool
+	escaping       []*ssa.Function
 	FieldDecls     []*FieldDecl
 	callees        map[*ssa.Function]map[*ssa.Function]bool
 	reachCache     map[*ssa.Function]map[string]bool
